@@ -17,15 +17,21 @@ def gaddr(I, cu, index):
     """the address the unit's address table holds at `index` (7.27): the address-sized word at
     DW_AT_addr_base + index * address_size of .debug_addr"""
     from specs.k1_layouts import dwarf_word
+    from pyvc.vals import SOpt
     sec = cu.attrs['dwarfinfo'].attrs['debug_addr_sec']
+    absent = z3.Function('debug_addr.absent', IntS, IntS, IntS)(to_int(cu.attrs['cu_offset']), to_int(index))
     if sec is None:
         # no .debug_addr section: get_addr never returns, the value is never observed (total for the logic)
-        return z3.Function('debug_addr.absent', IntS, IntS, IntS)(to_int(cu.attrs['cu_offset']), to_int(index))
+        return absent
+    isnone = None
+    if isinstance(sec, SOpt):
+        isnone, sec = sec.isnone, sec.val
     from specs.die import A_value, _ctx
     iarr, cuo = _ctx(cu)
     base = A_value(iarr, cuo, to_int(cu.attrs['cu_die_offset']), z3.StringVal('DW_AT_addr_base'))
-    return dwarf_word(sec.fields['stream'].arr, base + to_int(index) * to_int(cu.attrs['header'].fields['address_size']),
-                      to_int(cu.attrs['structs'].attrs['address_size']))
+    v = dwarf_word(sec.fields['stream'].arr, base + to_int(index) * to_int(cu.attrs['header'].fields['address_size']),
+                   to_int(cu.attrs['structs'].attrs['address_size']))
+    return v if isnone is None else z3.If(isnone, absent, v)
 
 
 @_native
